@@ -315,10 +315,92 @@ def run_assign(ctx, case):
     ctx.sig([m.get("tags"), len(case["hosts"]), min(case["n"], 3)], nontrivial=case["n"] > 1)
 
 
+# ---------------------------------------------------------------------------------------------
+# the allocator's results as the Driver uses them: Driver.start_benchmark (allocations, number_of_steps,
+# tasks_per_join_point) and the progress messages of a whole race, on the deterministic actor simulator
+# ---------------------------------------------------------------------------------------------
+def gen_driver(ctx):
+    rng = ctx.rng
+    for _ in range(ctx.budget):
+        sched = gen_schedule(rng)
+        if rng.random() < 0.35:
+            # an element without tasks (what a task filter used to leave behind; the allocator gives it a step of its own)
+            sched.insert(rng.randrange(len(sched) + 1), {"leaf": False, "clients": rng.choice([None, 2]), "tasks": []})
+            sched = _number(sched)["schedule"]
+        yield {"schedule": sched, "cores": rng.choice([1, 2, 3]), "seed": rng.randrange(1 << 30)}
+
+
+def to_scenario(case):
+    sc = {"schedule": [], "svc": {}, "hosts": ["localhost"], "cores": case["cores"], "test_mode": True, "max_wakeup_delay": 0.0,
+          "clock_offsets": [0.0] * 4, "record_progress": True}
+    for e in case["schedule"]:
+        ts = [{"name": f"t{t['id']}", "clients": t["clients"], "iterations": 1 + t["id"] % 2, "cp": t["cp"], "acp": t["acp"]} for t in e["tasks"]]
+        for t in ts:
+            sc["svc"][t["name"]] = 0.25
+        sc["schedule"].append({"leaf": ts[0]} if e.get("leaf") else {"par": ts, "clients": e["clients"]})
+    return sc
+
+
+def run_driver(ctx, case):
+    from harness import c01
+
+    sc = to_scenario(case)
+    sim, res = c01.run_sim({"scenario": sc, "seed": case["seed"]})
+    try:
+        d = sim.actors["driver"].inst.driver
+        S = len(case["schedule"])
+        m = ctx.model("alloc", "allocate", {"schedule": [{"clients": e["clients"], "tasks": e["tasks"]} for e in case["schedule"]]})["r"]
+        empty = any(not e["tasks"] for e in case["schedule"])
+        cls = "driver:" + ("empty-element" if empty else "general")
+        inbox = [type(x).__name__ for x in sim.rc.inbox]
+        if d.allocations is None or d.tasks_per_join_point is None or d.number_of_steps is None:
+            f = [str(x.message)[-400:] for x in sim.rc.inbox if type(x).__name__ == "BenchmarkFailure"]
+            ctx.fail(cls + ":not-started", "Driver.start_benchmark did not produce allocations, steps and the step table", "allocations, number_of_steps, tasks_per_join_point", f or inbox)
+            return
+        impl = {"rows": canon_matrix(d.allocations), "steps": d.number_of_steps,
+                "tasks_per_joinpoint": [sorted(int(t.name[1:]) for t in s) for s in d.tasks_per_join_point]}
+        mm = {"rows": m["rows"], "steps": m["steps"], "tasks_per_joinpoint": [sorted(x) for x in m["tasks_per_joinpoint"]]}
+        for k in impl:
+            if mm[k] != impl[k]:
+                ctx.diff("Driver." + k, mm[k], impl[k])
+                break
+        exp = [sorted(t["id"] for t in e["tasks"]) for e in case["schedule"]]
+        if impl["steps"] != S:
+            ctx.fail(cls + ":steps", "Driver.number_of_steps differs from the number of schedule elements", S, impl["steps"])
+        if len(impl["tasks_per_joinpoint"]) != impl["steps"]:
+            ctx.fail(cls + ":progress-entries", "Driver.tasks_per_join_point does not have one entry per step", impl["steps"], len(impl["tasks_per_joinpoint"]))
+        elif impl["tasks_per_joinpoint"] != exp:
+            ctx.fail(cls + ":progress-content", "a step's entry of Driver.tasks_per_join_point is not the task set of that element", exp, impl["tasks_per_joinpoint"])
+        # the race itself: completes, and every progress message names the tasks of the element that is running
+        want_inbox = ["PreparationComplete"] + ["TaskFinished"] * S + ["BenchmarkComplete"]
+        if "BenchmarkFailure" in inbox:
+            f = [x for x in sim.rc.inbox if type(x).__name__ == "BenchmarkFailure"][0]
+            ctx.fail(cls + ":race-fails", "the driver fails while walking through the schedule", want_inbox, str(f.message)[-500:])
+        elif res != "until" or inbox != want_inbox:
+            ctx.fail(cls + ":race-incomplete", f"race control did not see one TaskFinished per element and BenchmarkComplete ({res})", want_inbox, inbox)
+        else:
+            # messages between two `finish` marks belong to one step
+            step, seen = 0, []
+            for _, msg, _p in sim.progress_log:
+                if msg is None:
+                    step += 1
+                    continue
+                names = sorted(int(x[1:]) for x in msg[len("Running "):].split(",") if x)
+                seen.append(step)
+                if step >= S or names != exp[step]:
+                    ctx.fail(cls + ":progress-message", f"progress message during step {step} names other tasks than that element's", exp[step] if step < S else None, msg)
+                    break
+            ctx.count("progress-messages", len(seen))
+        ctx.sig(["driver", sorted(set(ctx_tags(case, {"clients": max(1, len(impl["rows"]))}))), min(S, 3), case["cores"], cls], nontrivial=S > 1)
+    finally:
+        sim.shutdown()
+
+
 STREAMS = [
     Stream("allocate", gen_alloc, run_alloc, quick=3000, thorough=200000),
     Stream("allocate_malformed", gen_alloc_malformed, run_alloc, quick=1500, thorough=60000),
     Stream("allocate_small_universe", gen_alloc_small, run_alloc, quick=1500, thorough=1, shards=16, exhaustive_thorough=True),
     Stream("assign", gen_assign, run_assign, quick=3000, thorough=200000),
+    Stream("driver_step_table", gen_driver, run_driver, quick=240, thorough=8000, shards=16),
     Stream("assign_small_universe", gen_assign_small, run_assign, quick=500, thorough=1, shards=4, exhaustive_thorough=True),
 ]
